@@ -237,6 +237,7 @@ def run_check(prop, tier, spec, nworkers=None, runs=None, budget_s=None, quiet=F
     # ---- violations: confirm, minimise, write replay files ---------------
     new_violations = []
     transients = []
+    side_notes = []
     known_lines = []
     replay_dir = replay_dir or os.environ.get("VERIF_REPLAY_DIR") or os.path.join(VERIF_ROOT, "replays")
     os.makedirs(replay_dir, exist_ok=True)
@@ -259,75 +260,109 @@ def run_check(prop, tier, spec, nworkers=None, runs=None, budget_s=None, quiet=F
         todo = unknown_keys[: tcfg.get("max_report", 6)]
         results = {}
 
-        def minimise_one(k):
-            v = viol_by_key[k][0]
-            try:
-                w = Worker(engine, env_extra)
-            except Exception as err:
-                results[k] = ("error", str(err))
-                return
-            try:
-                rep = w.call({"op": "minimise", "prop": prop, "scenario": v["scenario"], "tape": v["tape"], "key": k, "budget_s": min_budget})
-                results[k] = ("ok", rep, v)
-            except HarnessError as err:
-                results[k] = ("error", str(err))
-            finally:
-                w.close()
+        def confirm_one(k):
+            """Minimise and replay (in a fresh interpreter) one witness of class k; if a witness does not
+            reproduce - the code under test may carry state from earlier runs of the same worker process,
+            e.g. a class-level container - the next witnesses of the class get their chance."""
+            notes, last = [], None
+            for v in viol_by_key[k][:4]:
+                msg0 = next(vv["msg"] for vv in v["violations"] if vv["key"] == k)
+                try:
+                    w = Worker(engine, env_extra)
+                except Exception as err:
+                    results[k] = ("error", str(err), notes)
+                    return
+                try:
+                    rep = w.call({"op": "minimise", "prop": prop, "scenario": v["scenario"], "tape": v["tape"], "key": k, "budget_s": min_budget})
+                except HarnessError as err:
+                    results[k] = ("error", str(err), notes)
+                    return
+                finally:
+                    w.close()
+                if not rep.get("ok") and rep.get("why") == "not reproduced":
+                    notes.append(("transient", {"class": k, "seed": v["seed"], "message": msg0[:300], "events_tail": v.get("events_tail", [])[-40:], "log_tail": v.get("log_tail", [])[-12:]}))
+                    continue
+                if not rep.get("ok"):
+                    scen, tape, res = v["scenario"], v["tape"], None
+                else:
+                    scen, tape, res = rep["scenario"], rep["tape"], rep["result"]
+                path = os.path.join(replay_dir, "%s-%s-%d.json" % (prop, _safe(k), v["seed"]))
+                msg = msg0
+                if res:
+                    msg = next((vv["msg"] for vv in res["violations"] if vv["key"] == k), msg0)
+                dump_json(
+                    path,
+                    {
+                        "version": 1,
+                        "property": prop,
+                        "engine": engine,
+                        "key": k,
+                        "message": msg,
+                        "seed": v["seed"],
+                        "index": v["i"],
+                        "base_seed": base,
+                        "scenario": scen,
+                        "tape": tape,
+                        "expect_digest": res.get("digest") if res else v.get("digest"),
+                        "events": (res or {}).get("events", [])[-200:],
+                        "original_sizes": {"scenario_chars": len(json.dumps(v["scenario"], default=repr)), "tape_len": len(v["tape"])},
+                        "minimise_tries": rep.get("tries"),
+                        "also_seen_seeds": [x["seed"] for x in viol_by_key[k][1:6]],
+                    },
+                )
+                # replay once more in a fresh interpreter
+                ok, out = replay_file(path, quiet=True, env_extra=env_extra)
+                if ok:
+                    results[k] = ("confirmed", path, msg, notes)
+                    return
+                notes.append(("fresh-replay", "replay of %s in a fresh interpreter did not reproduce: %s" % (path, out[-300:])))
+                try:
+                    os.unlink(path)
+                except OSError:
+                    pass
+                if res is not None:
+                    # the minimiser runs many attempts in one process; if the code under test keeps state between
+                    # runs the minimised scenario may depend on that - fall back to the witness as it was found
+                    dump_json(path, {"version": 1, "property": prop, "engine": engine, "key": k, "message": msg0, "seed": v["seed"], "index": v["i"], "base_seed": base, "scenario": v["scenario"], "tape": v["tape"], "expect_digest": v.get("digest"), "events": [], "original_sizes": {"scenario_chars": len(json.dumps(v["scenario"], default=repr)), "tape_len": len(v["tape"])}, "minimise_tries": None, "not_minimised": "the minimised scenario did not replay in a fresh interpreter", "also_seen_seeds": [x["seed"] for x in viol_by_key[k][1:6]]})
+                    ok, out = replay_file(path, quiet=True, env_extra=env_extra)
+                    if ok:
+                        results[k] = ("confirmed", path, msg0, notes)
+                        return
+                    try:
+                        os.unlink(path)
+                    except OSError:
+                        pass
+            results[k] = ("unconfirmed", None, None, notes)
 
-        mts = [threading.Thread(target=minimise_one, args=(k,), daemon=True) for k in todo]
+        mts = [threading.Thread(target=confirm_one, args=(k,), daemon=True) for k in todo]
         for t in mts:
             t.start()
         for t in mts:
             t.join()
         for k in todo:
             r = results.get(k)
-            v0 = viol_by_key[k][0]
-            msg0 = next(vv["msg"] for vv in v0["violations"] if vv["key"] == k)
             if r is None or r[0] == "error":
                 harness_problems.append("minimise %s: %s" % (k, r and r[1]))
                 continue
-            rep = r[1]
-            if not rep.get("ok"):
-                if rep.get("why") == "not reproduced":
-                    # what cannot be replayed is not a failure report.  A handful of such observations is put
-                    # down to a transient disturbance of the machine (seen once: three runs of one batch while
-                    # ~70 workers of other checks competed for the box) and recorded in the evidence; more than
-                    # that means the harness itself is not deterministic, which is a HARNESS-ERROR.
-                    transients.append({"class": k, "seed": v0["seed"], "message": msg0[:300], "events_tail": v0.get("events_tail", [])[-40:], "log_tail": v0.get("log_tail", [])[-12:]})
-                    continue
-                scen, tape, res = v0["scenario"], v0["tape"], None
-            else:
-                scen, tape, res = rep["scenario"], rep["tape"], rep["result"]
-            path = os.path.join(replay_dir, "%s-%s-%d.json" % (prop, _safe(k), v0["seed"]))
-            msg = msg0
-            if res:
-                msg = next((vv["msg"] for vv in res["violations"] if vv["key"] == k), msg0)
-            dump_json(
-                path,
-                {
-                    "version": 1,
-                    "property": prop,
-                    "engine": engine,
-                    "key": k,
-                    "message": msg,
-                    "seed": v0["seed"],
-                    "index": v0["i"],
-                    "base_seed": base,
-                    "scenario": scen,
-                    "tape": tape,
-                    "expect_digest": res.get("digest") if res else v0.get("digest"),
-                    "events": (res or {}).get("events", [])[-200:],
-                    "original_sizes": {"scenario_chars": len(json.dumps(v0["scenario"], default=repr)), "tape_len": len(v0["tape"])},
-                    "minimise_tries": rep.get("tries"),
-                    "also_seen_seeds": [x["seed"] for x in viol_by_key[k][1:6]],
-                },
-            )
-            # replay once more in a fresh interpreter
-            ok, out = replay_file(path, quiet=True, env_extra=env_extra)
-            if not ok:
-                harness_problems.append("replay of %s in a fresh interpreter did not reproduce: %s" % (path, out[-300:]))
+            notes = r[-1]
+            if r[0] == "confirmed":
+                new_violations.append((k, r[1], r[2], len(viol_by_key[k])))
+                # witnesses of a confirmed class that did not replay are put down to state the code under test
+                # carries from run to run inside one worker process; they are recorded, not counted
+                for kind_, item in notes:
+                    if kind_ == "transient":
+                        item = dict(item, confirmed_by_another_witness=True)
+                        side_notes.append(item)
                 continue
-            new_violations.append((k, path, msg, len(viol_by_key[k])))
+            # what cannot be replayed is not a failure report.  A handful of such observations is put down to a
+            # transient disturbance of the machine (seen once: three runs of one batch while ~70 workers of other
+            # checks competed for the box) and recorded in the evidence; more than that means the harness itself
+            # is not deterministic, which is a HARNESS-ERROR.
+            for kind_, item in notes:
+                if kind_ == "transient":
+                    transients.append(item)
+                else:
+                    harness_problems.append(item)
         # further classes are only listed next to at least one *confirmed* (replayed) violation; if nothing
         # reproduced, everything seen was a transient disturbance of the harness, not a verdict
         if new_violations:
@@ -381,7 +416,7 @@ def run_check(prop, tier, spec, nworkers=None, runs=None, budget_s=None, quiet=F
                 "determinism_guard": {"reexecuted": agg["rechecks"], "mismatches": len(agg["recheck_mismatch"])},
                 "harness_retries_ok": agg["retried_ok"],
                 "harness_retry_reasons": agg.get("retried_msgs", []),
-                "unreproduced_observations_discarded": transients,
+                "unreproduced_observations_discarded": transients + side_notes,
                 "known_findings_seen": known_lines,
                 "violation_classes": [k for k, _, _, _ in new_violations],
                 "real_components": spec["real_components"],
